@@ -19,6 +19,7 @@ func init() {
 		e.RNameSource()
 		e.RSharedState()
 		e.RAddsEveryMissing()
+		e.RAddSurvives()
 		e.RDeadAppend()
 		e.RAliasFlow()
 		e.RPackageNamesOwnership()
@@ -68,6 +69,7 @@ func init() {
 		e.RWalk()
 		e.RUniqueNames()
 		e.RAddsEveryMissing()
+		e.RAddSurvives()
 		e.RAliasFlow()
 		e.RPackageNamesOwnership()
 		e.RRestoreIdent()
